@@ -1849,6 +1849,19 @@ void Router::markPolylineConnectorsNeedingReroutingForDeletedObstacle(
         const Point connEnd = conn->m_route.ps[conn->m_route.size() - 1];
 
         double conndist = conn->m_route_dist;
+        if (conn->m_route.size() > 2)
+        {
+            // The routes are chosen by cost, not just length: a path through
+            // the freed region may be longer than the current route and
+            // still be cheaper if it has fewer bends.  estdist below is a
+            // lower bound on the cost of such a path (a path has no negative
+            // penalties), so compare it with an upper bound on the cost of
+            // the current route: each interior point costs at most the
+            // segment penalty plus the angle penalty.
+            conndist += (conn->m_route.size() - 2) *
+                    (routingParameter(segmentPenalty) +
+                     routingParameter(anglePenalty));
+        }
 
         double estdist;
         double e1, e2;
